@@ -128,6 +128,12 @@ def run(r: core.Run, prop, module, rule, want):
                 raise core.TieBroken("Lean driver does not build", log[-2000:])
         core.run_driver(["text"], stdin_path=base + ".ops", out_path=base + ".model")
         ops, impl, model = core.read_lines(base + ".ops"), core.read_lines(base + ".impl"), core.read_lines(base + ".model")
+        # the laws the proofs ASSUME of Go's leaf codecs, evaluated on Go itself, each inside its stated domain
+        ll = core.run_bwh(["leaflaws", "-n", str(20000 if r.tier == "quick" else 400000)], extra_env={"VERIF_SEED": str(r.seed)}, timeout=3000)
+        r.notes["leaf_laws"] = next((l for l in ll if l.startswith("leaflaws ")), "?")
+        broken = [l for l in ll if " FAILS " in l]
+        if broken:
+            raise core.TieBroken("a law the text proofs assume of Go's codecs (LeafLaws) is false of Go", "\n".join(broken[:5]))
         nontriv = set()
         fams = Counter()
         for i, o in enumerate(ops):
